@@ -124,6 +124,31 @@ func splitGoal(goal string, counter *int) []subgoal {
 			}
 		}
 		sg.concl = g
+		// terms that wrap a skolem constant as an interface-keyed map key are instantiation candidates too
+		text := g + " " + strings.Join(sg.hyps, " ")
+		for _, sk := range append([]string{}, sg.names...) {
+			idx := 0
+			for n := 0; n < 4; n++ {
+				i := strings.Index(text[idx:], " "+sk+")")
+				if i < 0 {
+					break
+				}
+				j := strings.LastIndex(text[:idx+i], "(pair ")
+				if j >= 0 && !strings.ContainsAny(text[j+6:idx+i], "() ") {
+					t := text[j : idx+i+len(sk)+2]
+					dup := false
+					for _, x := range sg.names {
+						if x == t {
+							dup = true
+						}
+					}
+					if !dup {
+						sg.names = append(sg.names, t)
+					}
+				}
+				idx += i + 1
+			}
+		}
 		out = append(out, sg)
 	}
 	rec(goal, subgoal{}, 0)
